@@ -652,8 +652,9 @@ def check_c06(tier, seed):
     for k in range(16 if tier == "quick" else 40):
         progs.append({"kind": "src", "name": "pathfam-%d-%d" % (seed, k), "text": tgen.pathfam(Rng(seed * 17 + k))})
     # many small functions with one flow each: many entry points, many (summary id, node id) pairs
-    for k in range(6 if tier == "quick" else 24):
-        progs.append({"kind": "src", "name": "handlerfam-%d-%d" % (seed, k), "text": tgen.handlerfam(Rng(seed * 61 + k))})
+    for k in range(8 if tier == "quick" else 24):
+        htext, hconfig = tgen.handlerfam(Rng(seed * 61 + k), style="fieldsrc" if k % 2 == 0 else None)
+        progs.append({"kind": "src", "name": "handlerfam-%d-%d" % (seed, k), "text": htext, "config": hconfig})
     observations = collections.Counter()
     cur = {"b": binary}  # the binary the current exploration uses (replays must use the same instrumentation)
 
